@@ -19,6 +19,12 @@ type invocationNextHandler struct {
 
 func (h *invocationNextHandler) ServeHTTP(writer http.ResponseWriter, request *http.Request) {
 	runtime := h.registrationService.GetRuntime()
+	if runtime == nil {
+		// no runtime is registered (not launched yet, or cleared by a reset): the call is illegal in this state
+		rendering.RenderForbiddenWithTypeMsg(writer, request, rendering.ErrorTypeInvalidStateTransition, StateTransitionFailedForRuntimeMessageFormat,
+			runtimeNotRegisteredStateName, core.RuntimeReadyStateName, runtimeNotRegisteredError)
+		return
+	}
 	err := runtime.Ready()
 	if err != nil {
 		log.Warn(err)
